@@ -73,6 +73,9 @@ def _malformed(entry: serializers.Entry, valid: bytes, rng: random.Random) -> by
     which the parser fails with anything else than a parse error is kept too: the endpoint has to answer it with exactly one parse error
     like any other malformed datagram (if it does not, the receive is logged as a crash, which the specification has no action for)."""
     proto = entry.datagram_protocol()
+    if entry.excluded is not None and rng.random() < 0.5:
+        # malformed by the serializer's documented format, not by what its parser says: a token without a valid checksum
+        return rng.choice(entry.excluded(rng, entry.gen(rng)))
     if "JSON" in entry.name and rng.random() < 0.2:
         # documents that make the JSON decoder fail with something else than JSONDecodeError (RecursionError, int conversion limit)
         hostile = rng.choice([b"[" * 6000, b"[" * 3000 + b"]" * 3000, b"9" * 5000, b'{"a":' * 2500 + b"1" + b"}" * 2500, b"[" + b"1" * 4400 + b"]"])
